@@ -446,8 +446,11 @@ func cmdCheck(args []string) int {
 			continue
 		}
 		violations++
-		rp := writeReplay(ev, prop, f.o, *repo)
+		rp, confirmed := writeReplay(ev, prop, f.o, *repo)
 		suffix := " no-failing-input-found"
+		if confirmed {
+			suffix = " failing-input-replayed-on-real-code"
+		}
 		lines = append(lines, fmt.Sprintf("VIOLATION property=%s replay=%s obligation=%s status=%s%s", prop, rp, f.o.Name, f.o.Res.Status, suffix))
 		exit = 1
 	}
@@ -630,7 +633,7 @@ func round2(x float64) float64 { return float64(int(x*100+0.5)) / 100 }
 
 // writeReplay records a failed obligation: what failed, where, the solver's answer and
 // the query, so that it can be re-run (`rvc replay <file>`).
-func writeReplay(ev, prop string, o *Obligation, repo string) string {
+func writeReplay(ev, prop string, o *Obligation, repo string) (string, bool) {
 	dir := filepath.Join(ev, "replay", prop)
 	os.MkdirAll(dir, 0o755)
 	base := sanitize(o.Name)
@@ -646,7 +649,33 @@ func writeReplay(ev, prop string, o *Obligation, repo string) string {
 			model = model[:6000] + "\n..."
 		}
 	}
+	var cex cexResult
+	note := "the verifier produced no model that replays on the real code (quantified obligation or timeout): no-failing-input-found"
+	var failing interface{}
+	if o.Res.Status == "sat" {
+		cex = replayCounterexample(o, repo)
+		switch {
+		case cex.Confirmed:
+			failing = cex.Input
+			note = "the solver's counterexample was replayed on the real code and confirmed: " + cex.Verdict
+			os.WriteFile(filepath.Join(dir, base+"_replay_test.go.txt"), []byte(cex.TestSrc), 0o644)
+		case cex.Why != "":
+			note = "the solver's counterexample was not replayed (" + cex.Why + "): no-failing-input-found"
+		default:
+			note = "the solver's counterexample did not replay on the real code (" + cex.Verdict + "): no-failing-input-found"
+			os.WriteFile(filepath.Join(dir, base+"_replay_test.go.txt"), []byte(cex.TestSrc), 0o644)
+		}
+	}
+	replayTest, replayPkg := "", ""
+	if cex.TestSrc != "" {
+		replayTest = filepath.Join(dir, base+"_replay_test.go.txt")
+		replayPkg = cex.PkgRel
+	}
 	rec := map[string]interface{}{
+		"replay_test":    replayTest,
+		"replay_pkg":     replayPkg,
+		"replay_verdict": cex.Verdict,
+		"replay_log":     cex.Log,
 		"solver_model":   model,
 		"property":       prop,
 		"obligation":     o.Name,
@@ -659,14 +688,14 @@ func writeReplay(ev, prop string, o *Obligation, repo string) string {
 		"solver_output":  o.Res.Output,
 		"query":          qfile,
 		"repo":           repo,
-		"failing_input":  nil,
-		"note":           "the verifier produced no model that replays on the real code (quantified obligation or timeout): no-failing-input-found",
+		"failing_input":  failing,
+		"note":           note,
 		"rerun":          fmt.Sprintf("bin/rvc replay %s", rp),
 		"bounded_unroll": o.Bounded,
 	}
 	data, _ := json.MarshalIndent(rec, "", " ")
 	os.WriteFile(rp, append(data, '\n'), 0o644)
-	return rp
+	return rp, cex.Confirmed
 }
 
 func cmdReplay(args []string) int {
@@ -714,6 +743,27 @@ func cmdReplay(args []string) int {
 		return 0
 	}
 	fmt.Printf("obligation %v at %v\n  %v\n", rec["obligation"], rec["at"], rec["what"])
+	if tf, _ := rec["replay_test"].(string); tf != "" {
+		// the counterexample's generated Go test: run it against the repository (second argument, default /repo)
+		repo := "/repo"
+		if len(args) > 1 {
+			repo = args[1]
+		}
+		pkg, _ := rec["replay_pkg"].(string)
+		src, err := os.ReadFile(tf)
+		if err == nil {
+			out, err := runReplaySrc(filepath.Join(repo, pkg), string(src))
+			fmt.Printf("replay of the counterexample against %s (package %s):\n", repo, pkg)
+			for _, l := range strings.Split(out, "\n") {
+				if strings.Contains(l, "RVC-REPLAY") {
+					fmt.Println("  " + strings.TrimSpace(l))
+				}
+			}
+			if err != nil {
+				fmt.Println("  (the test did not run: " + err.Error() + ")")
+			}
+		}
+	}
 	q, _ := rec["query"].(string)
 	qd, err := os.ReadFile(q)
 	if err != nil {
